@@ -30,7 +30,7 @@ ASSUMPTIONS = [
 REAL_COMPONENTS = ["vsg.__main__.main and everything below it (argument parsing, configuration, tokenizer, classifier, rules, fix, write_vhdl_file, shutil.copystat)", "pickle transport of pool tasks/results", "kernel tmpfs file system", "forked worker processes"]
 STUBBED_COMPONENTS = ["multiprocessing.Pool scheduling (SimPool + Decider)", "data phase of shutil.copy2 (decomposed)", "clock/hostname", "directory order", "stdin/stdout capture", "process death (os._exit / SIGKILL chosen by the simulator)"]
 
-MUTATING = {"open-w", "write", "close", "chmod", "replace", "remove", "truncate", "utime", "copy-open", "copy-data", "copy-stat", "link"}
+MUTATING = {"open-w", "write", "flush", "close", "chmod", "replace", "remove", "truncate", "utime", "copy-open", "copy-data", "copy-stat", "link"}
 
 E = errno
 FAULTS_BY_KIND = {
@@ -47,6 +47,7 @@ FAULTS_BY_KIND = {
     "copy-data": [["err", E.ENOSPC], ["err", E.EIO], ["crash"], ["interrupt"], "partials"],
     "copy-stat": [["err", E.EPERM], ["crash"], ["interrupt"]],
     "fsync": [["err", E.EIO], ["crash"]],
+    "flush": [["err", E.ENOSPC], ["err", E.EIO], ["crash"], ["interrupt"]],
     "truncate": [["err", E.EIO], ["crash"]],
     "utime": [["err", E.EPERM], ["crash"]],
     "link": [["err", E.EPERM], ["crash"]],
